@@ -55,6 +55,16 @@ def run_property(pid, tier, write=True, root=None):
                 for vid in summ["failed"]:
                     rep.unk("SELFTEST", {"file": "sverif/catalogue.py", "line": 0, "function": "-", "construct": vid},
                             "checker self-validation failed on variant %s: the rule set does not behave as documented" % vid)
+            # detection regression: every stored seeded change that this property's check caught must still be caught
+            try:
+                lost, n_seed = seed_regression(pid, prog.root)
+                rep.analysed["seeded_changes_rechecked"] = n_seed
+                for name in lost:
+                    if base_clean:
+                        rep.unk("SELFTEST", {"file": "seeded/%s/patch.diff" % name, "line": 0, "function": "-", "construct": name},
+                                "the stored seeded change %s is no longer reported by this check" % name)
+            except Exception as e:      # never let the self-validation harness decide the property
+                rep.notes.append("seed regression not run: %s" % e)
             for note in sweeps.run(prog, pid):
                 rep.notes.append(note)
                 print("  NOTE " + note)
@@ -66,6 +76,41 @@ def run_property(pid, tier, write=True, root=None):
     info = dict(prog.stats(), repo=prog.root, files=prog.digest())
     code = rep.finish(info, getattr(mod, "EXPLANATION", mod.__doc__ or pid), write=write)
     return code, rep
+
+
+def seed_regression(pid, root):
+    """apply each stored seeded change of this property (seeded/<name>/patch.diff, recorded as caught by this property's check)
+    to a scratch copy of the analysed sources and re-run the quick check on it -> (names no longer caught, number applied)"""
+    import glob
+    import json
+    import shutil
+    import subprocess
+    import tempfile
+    from .loader import PACKAGES
+    here = os.path.dirname(os.path.dirname(os.path.abspath(__file__)))
+    lost, n = [], 0
+    for meta_p in sorted(glob.glob(os.path.join(here, "seeded", "*", "meta.json"))):
+        meta = json.load(open(meta_p))
+        if meta.get("property") != pid or not meta.get("detected_by_own_property"):
+            continue
+        d = tempfile.mkdtemp(prefix="sverif_seed_")
+        try:
+            for pkg in PACKAGES:
+                shutil.copytree(os.path.join(root, pkg), os.path.join(d, pkg), ignore=shutil.ignore_patterns("__pycache__", "test", "*.pyc"))
+            r = subprocess.run(["git", "apply", "--unsafe-paths", os.path.join(os.path.dirname(meta_p), "patch.diff")], cwd=d, capture_output=True, text=True)
+            if r.returncode != 0:
+                continue            # the repository moved on: the stored patch no longer applies
+            n += 1
+            import contextlib
+            import io
+            buf = io.StringIO()
+            with contextlib.redirect_stdout(buf), contextlib.redirect_stderr(buf):
+                code, _ = run_property(pid, "quick", write=False, root=d)
+            if code != 1:
+                lost.append(meta["seed"])
+        finally:
+            shutil.rmtree(d, ignore_errors=True)
+    return lost, n
 
 
 class _SafeOut:
